@@ -57,39 +57,85 @@ class Model:
                                               lambda s: s == 0)
         return self._langs[k]
 
-    def comment_lang(self):
-        """language of the raw lines dropped by _skip_useless_lines as comments (str twin)"""
-        if ('comment',) in self._langs:
-            return self._langs[('comment',)]
+    def skip_filter(self):
+        """_skip_useless_lines as a filter on raw lines, decided per input type and per position:
+           {(is_bytes, at_beginning): dict(dropped=<language of dropped lines>, yields_line=bool, changes_state=...)}
+        from the paths of its loop body (type tests and the at_beginning flag are fixed by the case, the remaining
+        literals are predicates on the line)"""
+        if getattr(self, '_skip', None) is not None:
+            return self._skip
         f = self.src.func('deb822:Deb822._skip_useless_lines')
-        loops = [s for s in f.node.body if isinstance(s, ast.For)]
-        if len(loops) != 1:
-            raise AnalysisError('%s: expected one loop' % f.site)
-        var = norm(loops[0].target)
-        tests = []
+        self.rep.saw_func(f)
+        fnode, _ = normalize.inline_helpers(f)
+        loops = [s for s in fnode.body if isinstance(s, ast.For)]
+        if len(loops) != 1 or not isinstance(loops[0].target, ast.Name):
+            raise AnalysisError('%s: expected one loop over the lines' % f.site)
+        var = loops[0].target.id
+        flags = [s_.targets[0].id for s_ in fnode.body[:fnode.body.index(loops[0])]
+                 if isinstance(s_, ast.Assign) and len(s_.targets) == 1 and isinstance(s_.targets[0], ast.Name)
+                 and isinstance(s_.value, ast.Constant) and s_.value.value is True]
+        if len(flags) != 1:
+            raise AnalysisError('%s: expected one position flag initialised to True before the loop' % f.site)
+        flag = flags[0]
 
-        def scan(stmts, in_str_branch):
-            for st in stmts:
-                if isinstance(st, ast.If):
-                    if norm(st.test) == 'isinstance(%s, bytes)' % var:
-                        scan(st.orelse, True)
+        class Unb(ast.NodeTransformer):
+            def visit_Constant(self, n):
+                if isinstance(n.value, bytes):
+                    return ast.copy_location(ast.Constant(value=n.value.decode('latin-1')), n)
+                return n
+        out = {}
+        anyl = rx.sigma_star(self.alpha)
+        for is_bytes in (False, True):
+            for at_beg in (False, True):
+                def atom(e, is_bytes=is_bytes, at_beg=at_beg):
+                    t = norm(e)
+                    if t == flag:
+                        return at_beg
+                    if t == 'isinstance(%s, bytes)' % var:
+                        return is_bytes
+                    if t == 'isinstance(%s, str)' % var:
+                        return not is_bytes
+                    # a line of one type never equals a constant of the other type
+                    if isinstance(e, ast.Compare) and len(e.ops) == 1 and isinstance(e.ops[0], (ast.Eq, ast.NotEq)):
+                        for a_, b_ in ((e.left, e.comparators[0]), (e.comparators[0], e.left)):
+                            if isinstance(b_, ast.Constant) and isinstance(b_.value, (str, bytes)) and isinstance(b_.value, bytes) != is_bytes \
+                                    and any(isinstance(n, ast.Name) and n.id == var for n in ast.walk(a_)):
+                                return isinstance(e.ops[0], ast.NotEq)
+                    if isinstance(e, ast.Call) and isinstance(e.func, ast.Attribute) and e.func.attr in ('startswith', 'endswith', 'strip', 'rstrip', 'lstrip') \
+                            and any(isinstance(n, ast.Name) and n.id == var for n in ast.walk(e.func.value)) \
+                            and any(isinstance(a_, ast.Constant) and isinstance(a_.value, (str, bytes)) and isinstance(a_.value, bytes) != is_bytes for a_ in e.args):
+                        raise AnalysisError('%s: %s is a TypeError for %s lines' % (f.site, t, 'bytes' if is_bytes else 'str'))
+                    return None
+                ps = paths.Enumerator(paths.Folder(paths.module_consts(f.module, f.cls or ''), atom)).run(loops[0].body, [paths.Path()])
+                dropped = anyl.complement()
+                yields_line = True
+                keeps_flag = True
+                for p_ in ps:
+                    if p_.outcome is not None and p_.outcome[0] == 'raise':
                         continue
-                    if norm(st.test) == 'at_beginning':
-                        continue
-                    if any(isinstance(b, ast.Continue) for b in st.body) and in_str_branch:
-                        tests.append(st.test)
+                    ys = [e for e in p_.events if e[0] == 'effect' and isinstance(e[1], ast.Expr) and isinstance(e[1].value, (ast.Yield, ast.YieldFrom))]
+                    lang = anyl
+                    for t, pol in p_.conds:
+                        pl = strlang.pred_lang(Unb().visit(t), var, self.alpha)
+                        lang = lang.intersect(pl if pol else pl.complement())
+                    if not ys:
+                        dropped = dropped.union(lang)
+                        if flag in p_.env and not (isinstance(p_.env[flag], ast.Constant) and p_.env[flag].value is at_beg):
+                            keeps_flag = False
                     else:
-                        scan(st.body, in_str_branch)
-                        scan(st.orelse, in_str_branch)
-        scan(loops[0].body, False)
-        if not tests:
-            raise AnalysisError('%s: comment test not found' % f.site)
-        lang = None
-        for t in tests:
-            pl = strlang.pred_lang(t, var, self.alpha)
-            lang = pl if lang is None else lang.union(pl)
-        self._langs[('comment',)] = lang
-        return lang
+                        if len(ys) != 1 or not isinstance(ys[0][1].value, ast.Yield) or norm(ys[0][1].value.value) != var:
+                            yields_line = False
+                        nf = p_.env.get(flag)
+                        if at_beg and not (isinstance(nf, ast.Constant) and nf.value is False):
+                            keeps_flag = False
+                out[(is_bytes, at_beg)] = dict(dropped=dropped, yields_line=yields_line, flag_ok=keeps_flag)
+        self._skip = out
+        self._skip_func = f
+        return out
+
+    def comment_lang(self):
+        """language of the raw lines dropped by _skip_useless_lines as comments (str twin, not at the beginning)"""
+        return self.skip_filter()[(False, False)]['dropped']
 
     # -- reader cascade of _internal_parser
     def _cascade(self):
